@@ -1,6 +1,6 @@
 """Which units decide which property (DESIGN.md sections 1, 5)."""
 
-VERUS_UNITS = ['U-FMT', 'U-REACH']
+VERUS_UNITS = ['U-FMT', 'U-REACH', 'U-COMPACTAS', 'U-SANITY', 'U-RESOLVE']
 
 PROPS = {
     'C15': {
@@ -21,7 +21,7 @@ PROPS = {
     },
     'C08': {
         'level': 'proof',
-        'verus': ['U-REACH'],
+        'verus': ['U-REACH', 'U-COMPACTAS'],
         'kani': [],
         'trusted_base': ['Verus 0.2026.09.13, Z3, rustc 1.98.1'],
         'assumptions': [
@@ -32,6 +32,37 @@ PROPS = {
             'resolution default + specific by path (FlatDerivesRegistry::resolve)',
             'derive/attribute token emission (Derives::to_tokens)',
             'that create_type_ir / upcast_composite call the CompactAs predicate and insert the configured path',
+        ],
+    },
+    'C10': {
+        'level': 'proof',
+        'verus': ['U-SANITY', 'U-RESOLVE'],
+        'kani': [],
+        'trusted_base': ['Verus 0.2026.09.13, Z3, rustc 1.98.1'],
+        'assumptions': [
+            'sanity_pass: registry has at most 2^32 entries (the `idx as u32` truncation made explicit)',
+        ],
+        'not_covered': [
+            'that generate_types_mod and ensure_unique_type_paths call sanity_pass first and propagate its error (one `?` each, inside functions out of reach)',
+            'mixed named/unnamed fields check (create_composite_ir_kind), compact / decoded-bits path presence (resolve_type_path_recurse): reach syn/proc_macro2',
+            'propagation of TypeNotFound through resolve_type_path_recurse',
+            '"never panics on well-formed registries": whole-program statement over token-producing functions',
+        ],
+    },
+    'C13': {
+        'level': 'proof',
+        'verus': ['U-FMT'],
+        'kani': [],
+        'trusted_base': [
+            'Verus 0.2026.09.13, Z3, rustc 1.98.1',
+            'PeekChars shim = peekmore 1.3.0 (3 external_body contracts); SmallVec as Vec; &str <= isize::MAX bytes',
+        ],
+        'assumptions': [
+            'type_description passes the unformatted string to format_type_description unchanged (description.rs lines 50-54, 3 lines, not under contract)',
+            'memory allocation for the output String succeeds',
+        ],
+        'not_covered': [
+            'termination of the description on cyclic graphs and faithfulness of the text (Transformer::resolve: RefCell<HashMap>, function pointers; format! everywhere)',
         ],
     },
 }
